@@ -169,4 +169,28 @@ theorem group_lasso_kkt_sufficient {r n c : ℕ} (hr : 0 < r) (X : Matrix (Fin r
   unfold groupLasso
   linarith
 
+/-- **C10 (units do not matter – the repair of `constrained_binary_solve`).** The binary solve is now carried out on the
+normalised problem `Ψ' = Ψ / p`, `w' = w / q` (`p, q ≠ 0`) and the result is scaled back, `s = (q / p) · s'`.  If the
+normalised fit is exact for the centred system, the scaled-back weights are exact for the original centred system
+(with `x̄' = x̄ / p`, `w̄' = w̄ / q`), so `binary_offset` applies to them: units cannot change the property. -/
+theorem binary_fit_rescales {r n : ℕ} (Ψ : Matrix (Fin r) (Fin n) ℚ) (w : Fin r → ℚ) (s' : Fin n → ℚ)
+    (xbar : Fin n → ℚ) (wbar p q : ℚ) (hp : p ≠ 0) (hq : q ≠ 0)
+    (hfit : ∀ i, ∑ j, (Ψ i j / p - xbar j / p) * s' j = w i / q - wbar / q) :
+    ∀ i, ∑ j, (Ψ i j - xbar j) * ((q / p) * s' j) = w i - wbar := by
+  intro i
+  have h := hfit i
+  have e : ∑ j, (Ψ i j - xbar j) * ((q / p) * s' j) = q * ∑ j, (Ψ i j / p - xbar j / p) * s' j := by
+    rw [Finset.mul_sum]
+    refine Finset.sum_congr rfl fun j _ => ?_
+    field_simp
+  rw [e, h]
+  field_simp
+
+/-- … hence the offset identity for the weights the repaired code returns -/
+theorem binary_offset_any_units {r n : ℕ} (Ψ : Matrix (Fin r) (Fin n) ℚ) (w : Fin r → ℚ) (s' : Fin n → ℚ)
+    (xbar : Fin n → ℚ) (wbar p q : ℚ) (hp : p ≠ 0) (hq : q ≠ 0)
+    (hfit : ∀ i, ∑ j, (Ψ i j / p - xbar j / p) * s' j = w i / q - wbar / q) :
+    ∀ i, (Ψ *ᵥ fun j => (q / p) * s' j) i + (wbar - xbar ⬝ᵥ fun j => (q / p) * s' j) = w i :=
+  binary_offset Ψ w (fun j => (q / p) * s' j) xbar wbar (binary_fit_rescales Ψ w s' xbar wbar p q hp hq hfit)
+
 end PsVerif
